@@ -60,12 +60,16 @@ class C10(Prop):
             else:
                 dtype, vals, enum = tc.gen_string_feature(rng, n)
                 c.update(fkind="string", kind=dtype, feature=vals, enum=enum, xcontainer="polars")
-            if c["fkind"] == "numeric" and rng.random() < 0.15:
+            if c["fkind"] == "numeric" and rng.random() < 0.25:
                 # a narrow signed / unsigned integer column of a polars frame (counts, codes): bin means are not whole numbers and
                 # must reach the predict function untruncated
-                kind = rng.choice(["uint8w", "uint16w", "uint8w", "int8w", "int16w"])
+                kind = rng.choice(["uint8w", "uint16w", "int8w", "int8w", "int16w"])
                 lo = 0 if kind.startswith("uint") else -6
                 c.update(kind=kind, feature=[rng.randint(lo, 12) for _ in range(n)], xcontainer="polars")
+                if rng.random() < 0.5:
+                    # the whole range of the dtype (a range that does not fit the dtype itself: -100 .. 100 in Int8)
+                    lo_, hi_ = tc.NARROW_RANGE[kind]
+                    c.update(feature=[rng.choice([lo_, hi_, rng.randint(lo_, hi_)]) for _ in range(n)], method=rng.choice(["uniform", "uniform", "quantile"]))
             if rng.random() < 0.08:
                 # a huge common offset with a small spread: variances / standard errors must be computed stably
                 off = rng.choice([1e8, 1e9])
